@@ -4,14 +4,17 @@ From CppUVerif Require Import gen.Gen_C11 C11_Model.
 Import ListNotations.
 Local Open Scope N_scope.
 
-Definition nrange (n : N) : list N := map N.of_nat (seq 0 (N.to_nat n)).
-Lemma in_nrange n k : k < n -> In k (nrange n).
+Fixpoint nrange_from (fuel : nat) (start : N) : list N :=
+  match fuel with O => [] | S f => start :: nrange_from f (N.succ start) end.
+Definition nrange (n : N) : list N := nrange_from (N.to_nat n) 0.
+Lemma in_nrange_from : forall fuel start k, start <= k -> k < start + N.of_nat fuel -> In k (nrange_from fuel start).
 Proof.
-  intro H. unfold nrange. apply in_map_iff. exists (N.to_nat k). split; [apply N2Nat.id|].
-  apply in_seq. lia.
+  induction fuel as [|f IH]; intros start k H1 H2; [simpl in H2; lia|].
+  simpl. destruct (N.eq_dec start k) as [->|Hne]; [left; reflexivity|].
+  right. apply IH; lia.
 Qed.
-Lemma nrange_in n k : In k (nrange n) -> k < n.
-Proof. unfold nrange. intro H. apply in_map_iff in H. destruct H as [x [<- H]]. apply in_seq in H. lia. Qed.
+Lemma in_nrange n k : k < n -> In k (nrange n).
+Proof. intro H. unfold nrange. apply in_nrange_from; lia. Qed.
 
 (* ---- partition of all 65536 words ---- *)
 Definition b2n (b : bool) : nat := if b then 1%nat else 0%nat.
